@@ -29,10 +29,10 @@ pub struct StreamState {
 }
 
 pub struct Env {
-    pub deltio: Deltio,
+    pub deltio: Arc<Deltio>,
     pub publisher: PublisherClient<Channel>,
     pub subscriber: SubscriberClient<Channel>,
-    pub server: tokio::task::JoinHandle<()>,
+    pub server: Option<tokio::task::JoinHandle<()>>,
     pub streams: HashMap<u32, StreamState>,
     pub base: Instant,
     pub base_us: u64,
@@ -74,7 +74,21 @@ pub async fn goto(target: u64) {
 
 /// Runs every other task until none of them is runnable (the run queue of the current-thread
 /// scheduler is empty twice in a row after a yield): the server is quiescent at this virtual instant.
+thread_local! {
+    /// Inside concurrent tasks an op must not wait for global quiescence (the tasks would wait
+    /// for each other); only the explicit `probe` op does.
+    pub static NO_SETTLE: std::cell::Cell<bool> = const { std::cell::Cell::new(false) };
+}
+
 pub async fn settle() {
+    if NO_SETTLE.with(|c| c.get()) {
+        tokio::task::yield_now().await;
+        return;
+    }
+    settle_force().await
+}
+
+pub async fn settle_force() {
     let metrics = tokio::runtime::Handle::current().metrics();
     let mut calm = 0;
     for _ in 0..2_000_000 {
@@ -126,16 +140,29 @@ pub async fn connect(deltio: &Deltio) -> (PublisherClient<Channel>, SubscriberCl
 
 impl Env {
     pub async fn new() -> Env {
-        let deltio = Deltio::new();
+        let deltio = Arc::new(Deltio::new());
         let (publisher, subscriber, server) = connect(&deltio).await;
         Env {
             deltio,
             publisher,
             subscriber,
-            server,
+            server: Some(server),
             streams: HashMap::new(),
             base: Instant::now(),
             base_us: now_us(),
+        }
+    }
+
+    /// A second client of the same server (own streams), for a concurrent task.
+    pub fn fork(&self) -> Env {
+        Env {
+            deltio: Arc::clone(&self.deltio),
+            publisher: self.publisher.clone(),
+            subscriber: self.subscriber.clone(),
+            server: None,
+            streams: HashMap::new(),
+            base: self.base,
+            base_us: self.base_us,
         }
     }
 
@@ -147,7 +174,9 @@ impl Env {
         for s in page {
             let _ = tokio::time::timeout(Duration::from_secs(1), s.delete()).await;
         }
-        self.server.abort();
+        if let Some(s) = self.server.take() {
+            s.abort();
+        }
         settle().await;
     }
 }
